@@ -332,6 +332,36 @@ def docRefuses (pn : Node) (ck : Kind) (c : Nat) (ref' : Option Nat) : Bool :=
              | none => true)
     | _ => false)
 
+/-! ### nesting depth: elements nest only as deep as the parser reads them back (`MAX_ELEMENT_DEPTH`, translated as
+    `maxDepth_element`); an insertion that would make the tree deeper is refused -/
+def isElemKind : Kind → Bool | .elem _ => true | _ => false
+
+mutual
+/-- levels of element nesting below and including the node; 0 for what is not an element -/
+def elemHeight : Node → Nat
+  | .mk _ k _ _ ks => if isElemKind k then 1 + elemHeightL ks else 0
+def elemHeightL : List Node → Nat
+  | [] => 0
+  | n :: r => max (elemHeight n) (elemHeightL r)
+end
+
+mutual
+/-- number of elements on the path from the root of the tree down to node `i`, `i` included -/
+def depthIn (i : Nat) : Node → Option Nat
+  | .mk j k _ as ks =>
+    let me := if isElemKind k then 1 else 0
+    if i == j then some me else ((depthInL i as).orElse fun _ => depthInL i ks).map (· + me)
+def depthInL (i : Nat) : List Node → Option Nat
+  | [] => none
+  | n :: r => (depthIn i n).orElse fun _ => depthInL i r
+end
+
+def St.elemDepth (s : St) (i : Nat) : Nat := (depthInL i s.roots).getD 0
+
+/-- would the tree become deeper than the parser accepts? (only an element receiver checks) -/
+def tooDeep (s : St) (pn cn : Node) : Bool :=
+  isElemKind pn.kind && decide (maxDepth_element < s.elemDepth pn.id + elemHeight cn)
+
 /-- `insertBefore` / `appendChild`: checks in the order the library makes them, then the move -/
 def insertChild (s : St) (p c : Nat) (ref : Option Nat) : St × Res :=
   match s.find p, s.find c with
@@ -345,6 +375,7 @@ def insertChild (s : St) (p c : Nat) (ref : Option Nat) : St × Res :=
     if s.isAncestorOrSelf c p then (s, .err .hierarchy) else
     if !childAllowed pn.kind cn.kind then (s, .err .hierarchy) else
     if docRefuses pn cn.kind c (adjustRef pn c ref) then (s, .err .hierarchy) else
+    if tooDeep s pn cn then (s, .err .hierarchy) else
     match s.detach c with
     | (s1, some x) => (s1.update p (Node.mapKids (insertBeforeL x (adjustRef pn c ref))), .node c)
     | (_, none) => (s, .err .notFound)
